@@ -471,6 +471,21 @@ def _solve(i):
         r = s2.check()
         if r != z3.unknown:
             s = s2
+    if r == z3.unknown:
+        # last resort: the hypotheses are already instantiated at the program's terms -- model-based instantiation off
+        for mbqi, seed_ in ((False, 3), (False, 11), (True, 29)):
+            s3 = z3.Solver()
+            s3.set("timeout", 120000)
+            s3.set("random_seed", seed_)
+            try:
+                s3.set("smt.mbqi", mbqi)
+            except z3.Z3Exception:
+                pass
+            s3.add(*s.assertions())
+            r = s3.check()
+            if r != z3.unknown:
+                s = s3
+                break
     model = ""
     if r == z3.sat:
         m = s.model()
